@@ -29,3 +29,12 @@ func isDefer(ci interface{}) bool {
 }
 
 func has(s, sub string) bool { return strings.Contains(s, sub) }
+
+func firstCallArg(fn *ssa.Function, spec string) ssa.Value {
+	for _, ci := range q.CallsIn(fn, spec) {
+		if len(ci.Common().Args) > 0 {
+			return q.Resolve(ci.Common().Args[0])
+		}
+	}
+	return nil
+}
